@@ -40,6 +40,11 @@ PROPS = {
              "Seeded search over database histories (block writes, MergeAllPermanent, the real merge ticker and temp clean-up on the fake clock, RemoveBlocks) on the real Center/LeveldbPermanent/LeveldbBlockWrite/TempLeveldb stack over goleveldb; after every writer step every read listed in the statement is compared exactly with a model that keeps all committed blocks; concurrent readers under the seeded scheduler must read values the model held between invoke and return and never an older state than one already returned.",
              "trusted: the committed-blocks model in harness/storeh/dbsys.go; dummy block maps",
              SIM + "; reference-model comparison at quiescence and interval-based check of concurrent reads"),
+    "C20": P("storeh",
+             "For every generated history every quiescent close/reopen point (after each block, after each merge) is enumerated: all object reads, all raw-bytes reads (LastBlockMapBytes, BlockMapBytes, LastSuffrageProofBytes, SuffrageProofBytes, StateBytes), policy and pool contents are compared byte for byte before closing and after re-opening the storage with launch.LoadDatabase's constructor sequence on the simulated disk. Histories themselves are sampled by seed.",
+             "trusted: simdisk clean-close model (all written bytes survive); the reopen sequence mirrors launch.LoadDatabase",
+             SIM + "; enumeration of all quiescent restart points per history on the simulated disk",
+             level="fault_enumeration"),
 }
 
 NOT_APPLICABLE = {
